@@ -134,6 +134,260 @@ def rule_writer_wellformed(chk, prog):
                               "the next header starts mid-record")
 
 
+def rule_ext_order(chk, prog):
+    """K11-extorder: the extension records in front of a tar header are written in an order the project's own reader
+    survives.  From read_header's switch on the type flag: R = type flags whose case wipes what earlier records of the
+    entry supplied (it calls clear_header / zeroes the 'already set' mask), A = type flags whose case supplies
+    something (sets a bit of that mask).  In every writer function no record of a type in R is emitted after a record
+    of a type in A (emission = a call, possibly through helpers, that passes the type flag as a constant)."""
+    global _PROG
+    _PROG = prog
+    rd = [f for f in prog.functions() if f.name == "read_header" and f.unit.src.startswith("lib/tar/")]
+    if not rd:
+        chk.broke("lib/tar read_header not found")
+        return
+    rd = rd[0].build()
+    sw = None
+    for b in rd.blocks:
+        t = b.term
+        if t.op == "switch" and len(t.x["cases"]) >= 4:
+            v = t.ops[0]
+            if any((n_ == "typeflag") for x in backward_slice(v, phi_control=False, limit=40) if x.is_inst and x.op == "load"
+                   for (_s, n_) in ([strip_casts(x.ops[0]).field()] if strip_casts(x.ops[0]).is_inst and
+                                    strip_casts(x.ops[0]).op == "getelementptr" and strip_casts(x.ops[0]).field() else [])):
+                sw = t
+    if sw is None:
+        chk.broke("read_header: no switch on the type flag found")
+        return
+    # the mask: a local that is or-ed with constants in the cases
+    R, A = set(), set()
+    targets = {}
+    for v, blk in sw.x["cases"]:
+        targets.setdefault(blk, []).append(v.uval if hasattr(v, "uval") else v)
+    for blk, vals in targets.items():
+        # blocks of this case: everything reachable without passing the switch block again or its default/merge
+        seen, stack = set(), [blk]
+        while stack:
+            x = stack.pop()
+            if x in seen or x is sw.bb or len(seen) > 40:
+                continue
+            seen.add(x)
+            stack.extend(s_ for s_ in x.succs if s_ is not sw.bb)
+        wipes = supplies = False
+        for x in seen:
+            # only blocks dominated by the case entry belong to it
+            if not rd.dominates(blk, x):
+                continue
+            for i in x.insts:
+                if i.op == "call" and norm_callee(i.callee) == "clear_header":
+                    wipes = True
+                if i.op == "store" and strip_casts(i.ops[1]).is_inst and strip_casts(i.ops[1]).op == "alloca":
+                    if i.ops[0].is_const and i.ops[0].is_int and i.ops[0].uval == 0 and i.x.get("vt", "") in ("i32",):
+                        pass
+                    w = i.ops[0]
+                    if w.is_inst and w.op == "or" and any(o.is_const for o in w.ops):
+                        supplies = True
+        for v in vals:
+            if wipes:
+                R.add(v)
+            elif supplies:
+                A.add(v)
+    if not R or not A:
+        chk.broke("read_header: could not tell wiping (%s) from supplying (%s) record types" % (sorted(R), sorted(A)))
+        return
+    # writer side
+    emits = {}
+
+    def emitted(f, depth=0):
+        if f in emits:
+            return emits[f]
+        emits[f] = set()
+        if f.decl or depth > 4:
+            return emits[f]
+        f.build()
+        out = set()
+        for c in f.calls():
+            for o in c.ops:
+                if o.is_const and o.is_int and o.uval in (R | A) and (getattr(o, "bits", 8) or 8) <= 32:
+                    t = prog.fn(c.callee or "", f.unit)
+                    if t is not None and not t.decl and _stores_param_to(t, c.ops.index(o), "typeflag"):
+                        out.add(o.uval)
+            t = prog.fn(c.callee or "", f.unit) if c.callee else None
+            if t is not None and t.unit.src.startswith("lib/tar/"):
+                out |= emitted(t, depth + 1)
+        emits[f] = out
+        return out
+
+    n = 0
+    for f in prog.functions():
+        if f.decl or not f.unit.src.startswith("lib/tar/src/write_header"):
+            continue
+        f.build()
+        sites = []
+        for c in f.calls():
+            kinds = set()
+            for o in c.ops:
+                if o.is_const and o.is_int and o.uval in (R | A):
+                    t = prog.fn(c.callee or "", f.unit)
+                    if t is not None and not t.decl and _stores_param_to(t, c.ops.index(o), "typeflag"):
+                        kinds.add(o.uval)
+            t = prog.fn(c.callee or "", f.unit) if c.callee else None
+            if t is not None and t is not f and t.unit.src.startswith("lib/tar/"):
+                kinds |= emitted(t)
+            if kinds:
+                sites.append((c, kinds))
+        if not any(k & A for (_c, k) in sites) or not any(k & R for (_c, k) in sites):
+            continue
+        n += 1
+        chk.analysed(f)
+        bad = None
+        for (ca, ka) in sites:
+            if not (ka & A):
+                continue
+            for (cr, kr) in sites:
+                if cr is ca or not (kr & R):
+                    continue
+                if (ca.bb is cr.bb and ca.pos < cr.pos) or (ca.bb is not cr.bb and f.reaches(ca.bb, cr.bb)):
+                    bad = (ca, cr)
+        inst = "%s:records" % f.name
+        if bad is None:
+            chk.ok("K11-extorder", inst, sites[0][0], "records of the types the reader wipes on (%s) are written before the ones that "
+                   "supply names (%s)" % (", ".join(repr(chr(x)) for x in sorted(R)), ", ".join(repr(chr(x)) for x in sorted(A))))
+        else:
+            chk.violation("K11-extorder", inst, bad[1], "a record of a type on which read_header forgets everything collected for the "
+                          "entry (%s) can be written after a record that supplies the long name / link target (line %d): "
+                          "tar2sqfs reads the entry back under its truncated name" % (
+                              ", ".join(repr(chr(x)) for x in sorted(R)), bad[0].line))
+    if n == 0:
+        chk.broke("no writer function emits both kinds of extension records")
+
+
+def _stores_param_to(f, idx, field, depth=0):
+    """parameter idx of f ends up in a struct field of that name (directly or handed on)"""
+    f.build()
+    if idx >= len(f.params) or depth > 3:
+        return False
+    p = f.params[idx]
+    for i in f.insts():
+        if i.op == "store":
+            v = i.ops[0]
+            while v.is_inst and v.op in ("trunc", "zext", "sext"):
+                v = v.ops[0]
+            q = strip_casts(i.ops[1])
+            if v is p and q.is_inst and q.op == "getelementptr" and q.field() and q.field()[1] == field:
+                return True
+        elif i.op == "call" and i.callee:
+            for k, o in enumerate(i.ops):
+                w = o
+                while w.is_inst and w.op in ("trunc", "zext", "sext"):
+                    w = w.ops[0]
+                if w is p:
+                    t = f.unit.prog.fn(i.callee, f.unit) if hasattr(f.unit, "prog") else None
+                    if t is None:
+                        t = _PROG.fn(i.callee, f.unit) if _PROG is not None else None
+                    if t is not None and not t.decl and _stores_param_to(t, k, field, depth + 1):
+                        return True
+    return False
+
+
+_PROG = None
+
+
+def rule_list_order(chk, prog):
+    """K11-listorder: repeated records that the reader collects into a linked list and the writer emits from one keep
+    their order through a conversion.  For every list head of the decoded tar header that is filled by linking nodes
+    (store of a node into the head field): the reader either appends (walks to the tail) or puts the node in front
+    (node->next = old head); the writer walks the list from its head and lays the records out front to back or back
+    to front.  'In front' + 'front to back' (or 'append' + 'back to front') reverses the order with every conversion,
+    which breaks 'converting twice reproduces the first result byte for byte'."""
+    # reader side: stores into pointer fields of tar_header_decoded_t
+    ins = {}         # field -> [(function, kind, site)]
+    for f in prog.functions():
+        if f.decl or not f.unit.src.startswith("lib/tar/"):
+            continue
+        f.build()
+        for i in f.insts():
+            if i.op != "store":
+                continue
+            q = strip_casts(i.ops[1])
+            if not (q.is_inst and q.op == "getelementptr" and q.field() and q.field()[0].startswith("struct.tar_header_decoded_t")):
+                continue
+            fld_ = q.field()[1]
+            node = strip_casts(i.ops[0])
+            if node.is_const or not (getattr(node, "ty", "") or i.x.get("vt", "")).endswith("*"):
+                continue
+            # node->next = <load of the same head>  somewhere before in this function: put in front
+            front = False
+            for j in f.insts():
+                if j.op == "store" and j is not i:
+                    qj = strip_casts(j.ops[1])
+                    if qj.is_inst and qj.op == "getelementptr" and qj.field() and qj.field()[1] == "next" and \
+                            strip_casts(qj.ops[0]) is node:
+                        v = strip_casts(j.ops[0])
+                        if v.is_inst and v.op == "load":
+                            qq = strip_casts(v.ops[0])
+                            if qq.is_inst and qq.op == "getelementptr" and qq.field() and qq.field()[1] == fld_ and \
+                                    qq.field()[0].startswith("struct.tar_header_decoded_t"):
+                                front = True
+            if front:
+                ins.setdefault(fld_, []).append((f, "in front", i))
+    # appends: a helper that walks ->next to the end and stores there, given &hdr->field
+    # (not present on this tree; recognised by a store through a pointer that a loop advanced to &node->next)
+    # writer side: loops over a list of the same node type that fill a buffer
+    n = 0
+    for fld_, sites in sorted(ins.items()):
+        node_ty = None
+        for (f, kind, i) in sites:
+            node_ty = (getattr(strip_casts(i.ops[0]), "ty", "") or i.x.get("vt", ""))
+        walkers = []
+        for g in prog.functions():
+            if g.decl or not g.unit.src.startswith("lib/tar/src/write_header"):
+                continue
+            g.build()
+            for (h, body) in g.loops:
+                phis = [x for x in h.insts if x.op == "phi" and x.ty == node_ty]
+                adv = False
+                for p_ in phis:
+                    for val, pred in zip(p_.ops, p_.x["inc"]):
+                        if pred in body and val.is_inst and val.op == "load":
+                            qv = strip_casts(val.ops[0])
+                            if qv.is_inst and qv.op == "getelementptr" and qv.field() and qv.field()[1] == "next":
+                                adv = True
+                if not adv:
+                    continue
+                # output position: a pointer phi of the loop that moves by a positive / negative amount
+                direction = None
+                for x in h.insts:
+                    if x.op == "phi" and x.ty.endswith("i8*"):
+                        for val, pred in zip(x.ops, x.x["inc"]):
+                            if pred not in body:
+                                continue
+                            sl = [y for y in backward_slice(val, phi_control=False, limit=60) if y.is_inst and y.op == "getelementptr"]
+                            neg = any(any(z.is_inst and z.op == "sub" for z in backward_slice(y.ops[-1], phi_control=False, limit=10))
+                                      for y in sl if len(y.ops) >= 2)
+                            direction = "back to front" if neg else "front to back"
+                if direction:
+                    walkers.append((g, direction, h))
+        if not walkers:
+            continue
+        for (f, kind, i) in sites:
+            for (g, direction, h) in walkers:
+                n += 1
+                chk.analysed(f)
+                inst = "%s:%s/%s" % (f.name, fld_, g.name)
+                stable = (kind == "in front") == (direction == "back to front")
+                if stable:
+                    chk.ok("K11-listorder", inst, i, "reader links new records %s, writer lays them out %s: the order survives a conversion"
+                           % (kind, direction))
+                else:
+                    chk.violation("K11-listorder", inst, i, "the reader links every new '%s' record %s of the list, the writer (%s) lays "
+                                  "the list out %s: each tar -> image -> tar conversion reverses the order of the records, so "
+                                  "converting twice does not reproduce the first result" % (fld_, kind, g.name, direction))
+    if n == 0:
+        chk.broke("no list of repeated records found that the tar reader fills and the tar writer walks")
+    return n
+
+
 def _nonzero_on_edge(f, v, b):
     """v is known != 0 when the function's return value is selected at block b"""
     facts = list(f.guards_at(b))
@@ -400,6 +654,10 @@ def run(chk):
     run_k7(chk, allp, "K7")
     s2t = load_program("sqfs2tar")
     rule_writer_wellformed(chk, s2t)
+    rule_ext_order(chk, load_program("all"))
+    rule_list_order(chk, load_program("all"))
+    chk.floor("K11-listorder", 1)
+    chk.floor("K11-extorder", 1)
     rule_unsupported(chk, s2t)
     rule_layer_order(chk, s2t)
     rule_pax_len(chk, s2t)
